@@ -23,6 +23,7 @@ type Profile struct {
 	Cold                                                    int      // weight of the composite 'cold mutation under a snapshot' step (see the generator)
 	NoCmpCallback                                           bool     // stores are opened without KeyCompareForCollection; `setcoll` on every existing name follows each open
 	Fill                                                    int      // weight of a large `fill` (70..260 items) into a file-backed store
+	Chain                                                   int      // weight of a composite step: 66-80 sorted keys with rising (or falling) priorities = a tree that deep, then a copy
 	FlushExtra, EndExtra                                    []string // templates with %F = file id
 	KeyOnlyReads                                            bool     // C19: bracket key-only ops with rmark/kreads
 	Iter, SetRoot, SnapRevert, Write, Blocks                int
@@ -636,6 +637,41 @@ func (g *Gen) history() []string {
 				default:
 					g.emit("geti %d %s %s %d", sn.sid, hn, hx(keys[r.Intn(len(keys))]), r.Intn(2))
 				}
+			}
+		}},
+		{p.Chain, func() {
+			// caller-chosen priorities that run with the key order give a treap that is a chain;
+			// SetItem's documentation allows them
+			s := g.pickStore(true)
+			if s == nil || r.Intn(4) != 0 {
+				return // deep chains are costly to replay: about one history in eight gets one
+			}
+			nm := g.pickName(s, true)
+			hn := hx([]byte(nm))
+			n := 66 + r.Intn(15)
+			rising := r.Intn(2) == 0
+			for i := 0; i < n; i++ {
+				pr := 1000 + i
+				if !rising {
+					pr = 1000 + n - i
+				}
+				g.emit("set %d %s %s %s %d", s.sid, hn, hx([]byte(fmt.Sprintf("z%03d", i))), hx([]byte{byte('0' + i%10)}), pr)
+			}
+			g.emit("visit %d %s asc %s 0 -1", s.sid, hn, hx([]byte("z060")))
+			if !s.mem || true {
+				ns := &gstore{sid: g.nextSid, fid: g.nextFid, names: map[string]bool{}}
+				g.nextSid++
+				g.nextFid++
+				for x := range s.names {
+					ns.names[x] = true
+				}
+				fe := []int{-1, 1, 7, 100}[r.Intn(4)]
+				g.emit("copy %d %d %d %d", s.sid, ns.sid, ns.fid, fe)
+				g.emit("dump %d", ns.sid)
+				if fe > 0 {
+					g.emit("opendump %d", ns.fid)
+				}
+				g.emit("close %d", ns.sid)
 			}
 		}},
 		{p.Fill, func() {
